@@ -479,12 +479,24 @@ func run() int {
 		} else if engineOnly {
 			confirmed, how = true, "engine-only observation (deterministic re-execution of the decision vector)"
 		} else {
-			r, err := native.run(f.Harness, *tierF, f.Values)
+			tries := 1
+			if f.MapOrder {
+				// the real runtime cannot be forced into a map order: repeat until the order shows up
+				tries = 400
+			}
+			var r *nativeResult
+			var err error
+			for t := 0; t < tries && !confirmed; t++ {
+				r, err = native.run(f.Harness, *tierF, f.Values)
+				if err != nil {
+					break
+				}
+				confirmed = reproduced(f, r)
+			}
 			if err != nil {
 				problems = append(problems, "native replay unavailable: "+firstLine(err.Error()))
 				continue
 			}
-			confirmed = reproduced(f, r)
 			how = "native replay"
 			validated++
 			if !confirmed {
